@@ -785,6 +785,84 @@ def r05_6(ctx):
             ctx.undecided(R, 'zero-outputs', 'the items yielded by the set wrapper\'s stream adaptor could not be reconstructed', fn=z[0])
 
 
+def r05_9(ctx):
+    """the key a slot hands out is the key it was given: where the slot keeps keys in two places (an inline buffer for short keys, a
+    spill vector for long ones) setter and getter must draw the line at the same length"""
+    R = ctx.rule('R05.9', 'slot key storage: the getter reads the place the setter wrote, for every key length', floor=1)
+    lib = ctx.lib
+    get = [f for f in lib.fn_list if f.path.startswith('raw::ops::Slot::') and f.arg_count == 1 and f.local_ty(0).endswith('[u8]') and f.kind != 'Closure']
+    put = [f for f in lib.fn_list if f.path.startswith('raw::ops::Slot::') and f.arg_count == 2 and f.local_ty(0) == '()' and f.local_ty(2).endswith('[u8]') and f.kind != 'Closure']
+    if len(get) != 1 or len(put) != 1:
+        ctx.undecided(R, 'slot-storage', 'getter / setter of the slot key not identified (%d / %d)' % (len(get), len(put)))
+        return
+    get, put = get[0], put[0]
+    import operator as _op
+    OPS = {'Eq': _op.eq, 'Ne': _op.ne, 'Lt': _op.lt, 'Le': _op.le, 'Gt': _op.gt, 'Ge': _op.ge}
+
+    def classify(f, place_of):
+        """[(predicate over the key length, storage field)] per returning path; None if a branch is not a length-vs-constant test"""
+        out = []
+        for p in explore(f, max_visits=1, havoc=True, limit=200):
+            if p.end != 'return':
+                continue
+            tests = []
+            for d in p.decisions:
+                e, val = d[2], d[3]
+                if e[0] == 'bin' and e[1] in OPS and val in (0, 1):
+                    a, b_ = e[2], e[3]
+                    ca = lib.const_scalar(a[1]) if a[0] == 'citem' else (a[1] if a[0] == 'const' else None)
+                    cb = lib.const_scalar(b_[1]) if b_[0] == 'citem' else (b_[1] if b_[0] == 'const' else None)
+                    if cb is not None and ca is None:
+                        tests.append((lambda n, o=OPS[e[1]], c=cb, v=val: bool(o(n, c)) == bool(v)))
+                        continue
+                    if ca is not None and cb is None:
+                        tests.append((lambda n, o=OPS[e[1]], c=ca, v=val: bool(o(c, n)) == bool(v)))
+                        continue
+                if any(x[0] == 'call' and isinstance(x[1], str) and x[1].endswith('::next') for x in walk(e)) or any(x[0] == 'havoc' for x in walk(e)):
+                    continue          # loop plumbing of a copy
+                return None
+            out.append((tests, place_of(f, p)))
+        return out
+
+    def put_place(f, p):
+        fs = set()
+        for (k, i, loc, st) in p.stores():
+            if loc[:1] == (1,) and len(loc) > 1:
+                fs.add(loc[1])
+        for (k, bid, callee, args, t) in path_calls(p, expand=False):
+            l0 = arg_loc(f, t, 0)
+            if l0 is not None and l0[:1] == (1,) and len(l0) > 1 and isinstance(callee, str) and callee.rsplit('::', 1)[-1] in (
+                    'extend', 'extend_from_slice', 'copy_from_slice', 'clone_from_slice', 'push', 'clear', 'index_mut', 'clone_into', 'resize', 'truncate'):
+                fs.add(l0[1])
+        return frozenset(fs)
+
+    def get_place(f, p):
+        return frozenset(x[2] for x in walk(p.ret()) if x[0] == 'field' and x[1][0] == 'param')
+    slot_adt = lib.adts.get('raw::ops::Slot') or {}
+    data_fields = {fd['name'] for v_ in slot_adt.get('variants', [])[:1] for fd in v_['fields'] if fd['ty'].startswith(('std::vec::Vec<', '[', 'std::boxed::Box<[', 'smallvec', 'std::string::String'))}
+    _pp, _gp = put_place, get_place
+    put_place = lambda f_, p_: frozenset(x for x in _pp(f_, p_) if x in data_fields)
+    get_place = lambda f_, p_: frozenset(x for x in _gp(f_, p_) if x in data_fields)
+    cp, cg = classify(put, put_place), classify(get, get_place)
+    if cp is None or cg is None:
+        ctx.undecided(R, 'slot-storage', 'the slot key accessors branch on something that is not a length compared with a constant', fn=get)
+        return
+    if len(cg) <= 1 and len(cp) <= 1:
+        ctx.check(R, True, 'slot-storage', '', fn=get)
+        return
+    bad = None
+    for n in range(0, 600):
+        w = [pl for ts, pl in cp if all(t(n) for t in ts)]
+        r = [pl for ts, pl in cg if all(t(n) for t in ts)]
+        if len(w) != 1 or len(r) != 1:
+            continue
+        data_w = {x for x in w[0]}
+        if not (r[0] & data_w):
+            bad = (n, sorted(w[0]), sorted(r[0]))
+            break
+    ctx.check(R, bad is None, 'slot-storage', 'for a key of %s bytes the slot stores it in %s but hands out %s: set operations emit a stale or garbage key of exactly that length' % (bad if bad is not None else ('?', '?', '?')), fn=get)
+
+
 def run(ctx):
     lib = ctx.lib
     pv = Prover(lib)
@@ -824,6 +902,11 @@ def run(ctx):
             ctx.step(r05_4_clear, ctx, name, f)
     ctx.step(r05_4_difference, ctx)
     ctx.step(r05_3, ctx)
+    ctx.step(r05_9, ctx)
+    # operations run over whatever streams they are given, range streams included: a range wrapper that sets another bound than its name
+    # says (gt delegating to ge) changes the operand sets (R03.2, the 16 wrapper setters, shared with C03)
+    import rules.C03 as C03
+    ctx.step(C03.r03_2, ctx)
     ctx.step(r05_5, ctx)
     ctx.step(r05_6, ctx)
     ctx.step(r05_7, ctx)
